@@ -210,16 +210,31 @@ Inductive cgroup := GSingle (c : condition) | GAnd (a b : cgroup) | GOr (a b : c
 
 Definition retracted_key (obj : str) : str := [95; 114; 101; 116; 114; 97; 99; 116; 101; 100; 95] ++ obj.
 
-(** rfind of a comparison operator, in the order of the table; split at its LAST occurrence *)
+(** rfind of a comparison operator, in the order of the table; split at its LAST occurrence OUTSIDE string literals
+    (after the repair "fix: an arithmetic condition is split at a comparison operator outside string literals") *)
 Definition cmp_ops : list (str * oper) :=
   [([62; 61], OGe); ([60; 61], OLe); ([61; 61], OEq); ([33; 61], ONe); ([62], OGt); ([60], OLt)].
 
-Fixpoint rfind_from (s pat : str) (pos : Z) (last : option Z) : option Z :=
+Definition is_quote (c : Z) : bool := (c =? 34) || (c =? 39).
+Fixpoint rfind_from (s pat : str) (pos : Z) (quote : option Z) (last : option Z) : option Z :=
   match s with
-  | [] => if str_starts [] pat then Some pos else last
-  | c :: r => rfind_from r pat (pos + utf8_len c) (if str_starts s pat then Some pos else last)
+  | [] => last
+  | c :: r =>
+      match quote with
+      | Some q => rfind_from r pat (pos + utf8_len c) (if c =? q then None else quote) last
+      | None => if is_quote c then rfind_from r pat (pos + utf8_len c) (Some c) last
+                else rfind_from r pat (pos + utf8_len c) None (if str_starts s pat then Some pos else last)
+      end
   end.
-Definition rfind (s pat : str) : option Z := rfind_from s pat 0 None.
+Definition rfind (s pat : str) : option Z := rfind_from s pat 0 None None.
+
+(** the quote state after a text *)
+Fixpoint qafter (s : str) (q : option Z) : option Z :=
+  match s with
+  | [] => q
+  | c :: r => qafter r (match q with Some x => if c =? x then None else q | None => if is_quote c then Some c else None end)
+  end.
+Definition balq (s : str) : bool := match qafter s None with None => true | Some _ => false end.
 
 Fixpoint first_op (s : str) (ops : list (str * oper)) : option (Z * str * oper) :=
   match ops with
